@@ -314,7 +314,8 @@ def run_rt(ck: Check, be: bool, cases: List[Dict[str, Any]], tag: str,
         elif codev & 1:
             tie_bad += 1
             if tie_bad <= 3:
-                ck.broken(Broken(f"tie T2: model CRt ({B},LE) and the real {c['op']} ({name}) disagree",
+                ck.broken(Broken(f"tie T2: model CRt ({B},{c.get('host', 'LE')}) and the real {c['op']} ({name}) disagree "
+                                 "(if the model's outcome is MemErr the implementation accessed memory outside the exact-size buffers)",
                                  json.dumps(replay)[:2500]))
     return {"cases": len(cases), "observations": n_obs, "distinct_evaluated": len(seen),
             "configs": [c["name"] for c in cfgs], "tie_mismatches": tie_bad, "spec_mismatches": spec_bad}
@@ -620,7 +621,9 @@ def run_schemas(ck: Check, be: bool, items: List[Dict[str, Any]], tag: str, all_
             stats["tie_mismatches"] += 1
             if stats["tie_mismatches"] <= 3:
                 ck.broken(Broken(f"tie T2: model CRt ({B},LE) and the generated C + runtime ({cfgname}) disagree on "
-                                 f"{kind} (schema {it['origin']}, case #{k} {c['kind']})", json.dumps(replay)[:2500]))
+                                 f"{kind} (schema {it['origin']}, case #{k} {c['kind']}; if the model's outcome is MemErr the "
+                                 "implementation accessed memory outside the exact-size buffer / field objects)",
+                                 json.dumps(replay)[:2500]))
     return stats
 
 
